@@ -18,7 +18,15 @@ import (
 
 const gwGroup = "gateway.networking.k8s.io"
 
-func genC10(t *rapid.T) WorldCase {
+// C10Case: a cluster state, optionally followed by a short history of Gateway API changes (class ownership,
+// gateway class, routes coming and going): what was admitted before must not be remembered.
+type C10Case struct {
+	Params  ctlsim.Params `json:"params"`
+	Objs    []*world.Obj  `json:"objs"`
+	Batches [][]world.Op  `json:"batches,omitempty"`
+}
+
+func genC10(t *rapid.T) C10Case {
 	g := newG(t, Profile{NS: []string{"a", "b"}, MaxReady: 2})
 	// namespaces with labels (for Selector)
 	nsLabels := func(name string) map[string]string {
@@ -164,9 +172,75 @@ func genC10(t *rapid.T) WorldCase {
 		}
 		g.add(rt)
 	}
-	c := WorldCase{Params: ctlsim.Params{Gateway: true, Shards: rapid.SampledFrom([]int{0, 0, 2}).Draw(t, "shards")}}
+	c := C10Case{Params: ctlsim.Params{Gateway: true, Shards: rapid.SampledFrom([]int{0, 0, 2}).Draw(t, "shards")}}
 	for _, o := range g.W.List() {
 		c.Objs = append(c.Objs, o.Clone())
+	}
+	if chanceT(t, "history", 35) {
+		orig := map[string]*world.Obj{}
+		for _, o := range c.Objs {
+			orig[o.Key()] = o
+		}
+		nb := g.intn("nbatches", 1, sizeScale(4, 7))
+		for b := 0; b < nb; b++ {
+			var ops []world.Op
+			for i, n := 0, g.intn("nops", 1, 2); i < n; i++ {
+				var op world.Op
+				switch g.intn("gwop", 0, 5) {
+				case 0, 1: // the class changes hands, disappears, comes back
+					name := g.pick("gcname", []string{"ours", "ours", "foreign"})
+					cur := g.W.Get(world.KGatewayClass, name)
+					switch {
+					case cur == nil:
+						op = world.Op{Op: "create", Obj: &world.Obj{Kind: world.KGatewayClass, Name: name, Controller: g.pick("gcctl", []string{world.ControllerName, "example.com/gw"})}}
+					case g.chance("gcdel", 40):
+						op = world.Op{Op: "delete", Obj: cur.Clone()}
+					default:
+						n := cur.Clone()
+						if n.Controller == world.ControllerName {
+							n.Controller = "example.com/gw"
+						} else {
+							n.Controller = world.ControllerName
+						}
+						op = world.Op{Op: "update", Obj: n}
+					}
+				case 2: // a gateway moves to another class
+					gws := g.W.OfKind(world.KGateway)
+					if len(gws) == 0 {
+						continue
+					}
+					n := gws[g.intn("whichgw", 0, len(gws)-1)].Clone()
+					n.GW.Class = g.pick("gwclass", []string{"ours", "foreign", "missing"})
+					op = world.Op{Op: "update", Obj: n}
+				default: // an object leaves, or one that left comes back as it was
+					var present, gone []*world.Obj
+					for _, o := range c.Objs {
+						if o.Kind != world.KHTTPRoute && o.Kind != world.KTCPRoute && o.Kind != world.KGateway {
+							continue
+						}
+						if g.W.Objs[o.Key()] != nil {
+							present = append(present, g.W.Objs[o.Key()])
+						} else {
+							gone = append(gone, o)
+						}
+					}
+					if len(gone) > 0 && (len(present) == 0 || g.chance("restore", 50)) {
+						op = world.Op{Op: "create", Obj: gone[g.intn("whichgone", 0, len(gone)-1)].Clone()}
+					} else if len(present) > 0 {
+						op = world.Op{Op: "delete", Obj: present[g.intn("whichpresent", 0, len(present)-1)].Clone()}
+					} else {
+						continue
+					}
+				}
+				if _, _, err := g.W.Apply(op); err != nil {
+					panic(fmt.Sprintf("generator produced inapplicable op %v: %v", op, err))
+				}
+				ops = append(ops, world.Op{Op: op.Op, Obj: op.Obj.Clone()})
+			}
+			if len(ops) > 0 {
+				c.Batches = append(c.Batches, ops)
+			}
+		}
 	}
 	return c
 }
@@ -410,9 +484,8 @@ func gwBuild(w *world.World) *gwRef {
 	return r
 }
 
-func execC10(c WorldCase) *Failure {
+func execC10(c C10Case) *Failure {
 	st := getStats("C10")
-	w := world.FromList(c.Objs)
 	s, steps, err := freshSim(c.Params, c.Objs)
 	if err != nil {
 		panic(err)
@@ -421,9 +494,62 @@ func execC10(c WorldCase) *Failure {
 	if e := stepErrors(steps); e != nil {
 		return failf("C10:update-error", "update failed: %v", e)
 	}
+	f, ref := c10Eval(s, world.FromList(c.Objs))
+	admitted, rejOther, tcp := ref.Admitted, 0, len(ref.TCP)
+	labels := map[string]bool{}
+	collect := func(ref *gwRef) {
+		for why, n := range ref.Rejected {
+			labels["rejected:"+why] = true
+			if why != "class" {
+				rejOther += n
+			}
+		}
+	}
+	collect(ref)
+	for i, ops := range c.Batches {
+		if f != nil {
+			break
+		}
+		if err := s.Apply(ops); err != nil {
+			panic(fmt.Sprintf("batch %d: %v", i, err))
+		}
+		if e := stepErrors(s.Reconcile()); e != nil {
+			return failf("C10:update-error", "batch %d: update failed: %v", i, e)
+		}
+		var r2 *gwRef
+		f, r2 = c10Eval(s, s.World)
+		if f != nil {
+			f.Msg = fmt.Sprintf("after batch %d of the history: %s", i, f.Msg)
+		}
+		admitted += r2.Admitted
+		tcp += len(r2.TCP)
+		collect(r2)
+	}
+	var ls []string
+	for l := range labels {
+		ls = append(ls, l)
+	}
+	sort.Strings(ls)
+	if admitted > 0 {
+		ls = append(ls, "some-admitted")
+	}
+	if tcp > 0 {
+		ls = append(ls, "tcp-route-admitted")
+	}
+	if len(c.Batches) > 0 {
+		ls = append(ls, "with-history")
+	}
+	st.Case(c, admitted > 0 && rejOther > 0, ls...)
+	st.Count("admitted_combinations", admitted)
+	return f
+}
+
+// c10Eval compares the written configuration with the Gateway API admission rules applied to the cluster state w.
+func c10Eval(s *ctlsim.Sim, w *world.World) (*Failure, *gwRef) {
+	st := getStats("C10")
 	cfg, perr := hapcfg.LoadDir(s.CfgDir())
 	if len(perr) > 0 {
-		return failf("C10:unparsable", "%v", perr)
+		return failf("C10:unparsable", "%v", perr), &gwRef{Rejected: map[string]int{}}
 	}
 	ref := gwBuild(w)
 	table := &refTable{Hosts: ref.Hosts, TLS: map[string]bool{}}
@@ -457,14 +583,14 @@ func execC10(c WorldCase) *Failure {
 				} else if res.Backend == "_error404" {
 					sig = "C10:admitted-route-missing"
 				}
-				return failf(sig, "request %s is sent to %q; the Gateway API admission rules give %v\nrejections: %v\ntrace:\n  %s", rq, res.Backend, ids, ref.Rejected, strings.Join(res.Trace, "\n  "))
+				return c10f(ref, failf(sig, "request %s is sent to %q; the Gateway API admission rules give %v\nrejections: %v\ntrace:\n  %s", rq, res.Backend, ids, ref.Rejected, strings.Join(res.Trace, "\n  ")))
 			}
 			if res.Backend == "_error404" || checked[res.Backend] {
 				continue
 			}
 			checked[res.Backend] = true
 			if f := c10Servers(cfg, ref, res.Backend); f != nil {
-				return f
+				return f, ref
 			}
 		}
 	}
@@ -482,38 +608,22 @@ func execC10(c WorldCase) *Failure {
 	}
 	for port, id := range ref.TCP {
 		if gotTCP[port] != id {
-			return failf("C10:tcp-route-missing", "TCPRoute admitted on listener port %d should reach %s, the configuration has %q", port, id, gotTCP[port])
+			return c10f(ref, failf("C10:tcp-route-missing", "TCPRoute admitted on listener port %d should reach %s, the configuration has %q", port, id, gotTCP[port]))
 		}
 		if f := c10Servers(cfg, ref, id); f != nil {
-			return f
+			return f, ref
 		}
 	}
 	for port, id := range gotTCP {
 		if ref.TCP[port] == "" {
-			return failf("C10:tcp-non-admitted", "a TCP frontend on port %d sends to %s although no admitted TCPRoute uses that port", port, id)
+			return c10f(ref, failf("C10:tcp-non-admitted", "a TCP frontend on port %d sends to %s although no admitted TCPRoute uses that port", port, id))
 		}
 	}
-	rejOther := 0
-	for why, n := range ref.Rejected {
-		if why != "class" {
-			rejOther += n
-		}
-	}
-	labels := []string{}
-	for why := range ref.Rejected {
-		labels = append(labels, "rejected:"+why)
-	}
-	if ref.Admitted > 0 {
-		labels = append(labels, "some-admitted")
-	}
-	if len(ref.TCP) > 0 {
-		labels = append(labels, "tcp-route-admitted")
-	}
-	st.Case(c, ref.Admitted > 0 && rejOther > 0, labels...)
 	st.Count("requests", reqN)
-	st.Count("admitted_combinations", ref.Admitted)
-	return nil
+	return nil, ref
 }
+
+func c10f(ref *gwRef, f *Failure) (*Failure, *gwRef) { return f, ref }
 
 func c10Servers(cfg *hapcfg.Config, ref *gwRef, id string) *Failure {
 	be := cfg.Backend(id)
